@@ -64,29 +64,29 @@ theorem scheme_key_ne (r : Route) (k : String) (hk : k ∈ keysL Scheme.keysOf r
 
 theorem scheme_mem_trace (s : LState I String) (L : List Route)
     (h : LRepr IL Scheme.keysOf s L) (hU : UIds L) (q : Req) (r : Route) :
-    r ∈ routesOfList (Scheme.trace I s q) ↔ r ∈ Scheme.matchReq I s q := by
+    r ∈ rawRoutesOfList (Scheme.trace I s q) ↔ r ∈ Scheme.matchReq I s q := by
   rw [scheme_match_eq s h.nodup, List.mem_append,
     ← mem_trace_buckets IL Scheme.keysOf Scheme.accepts s L h hU q r,
     ← mem_any_trace IL Scheme.keysOf s L h hU q r]
   unfold Scheme.trace
-  have key : r ∈ routesOfList (s.map.map (fun e =>
+  have key : r ∈ rawRoutesOfList (s.map.map (fun e =>
       if (e.1 == q.scheme.getD "" && q.scheme.getD "" != "") = true
       then Trace.mk true true (I.len e.2) (.other "scheme") (I.trace e.2 q)
       else Trace.mk false false (I.len e.2) (.other "scheme") [])) ↔
-      ∃ e ∈ s.map, Scheme.accepts e.1 q = true ∧ r ∈ routesOfList (I.trace e.2 q) := by
-    rw [mem_routesOfList_map]
+      ∃ e ∈ s.map, Scheme.accepts e.1 q = true ∧ r ∈ rawRoutesOfList (I.trace e.2 q) := by
+    rw [mem_rawRoutesOfList_map]
     constructor
     · rintro ⟨e, he, hr⟩
       refine ⟨e, he, ?_⟩
       by_cases hc : (e.1 == q.scheme.getD "" && q.scheme.getD "" != "") = true
-      · simp only [hc, if_true, Trace.routes_mk, TInfo.routes, List.nil_append] at hr
+      · simp only [hc, if_true, Trace.rawRoutes_mk, TInfo.routes, List.nil_append] at hr
         refine ⟨?_, hr⟩
         simp only [Bool.and_eq_true, beq_iff_eq, bne_iff_ne] at hc
         unfold Scheme.accepts
         cases hq : q.scheme with
         | none => rw [hq] at hc; simp at hc
         | some sc => rw [hq] at hc; simp at hc; simp [hc.1]
-      · simp [hc, Trace.routes_mk, TInfo.routes] at hr
+      · simp [hc, Trace.rawRoutes_mk, TInfo.routes] at hr
     · rintro ⟨e, he, ha, hr⟩
       refine ⟨e, he, ?_⟩
       unfold Scheme.accepts at ha
@@ -108,12 +108,12 @@ theorem scheme_mem_trace (s : LState I String) (L : List Route)
           exact scheme_key_ne r e.1 hk ha.symm
         · have hc : (e.1 == (some sc).getD "" && (some sc).getD "" != "") = true := by
             rw [← ha]; simp [hne]
-          simp only [hc, if_true, Trace.routes_mk, TInfo.routes, List.nil_append]
+          simp only [hc, if_true, Trace.rawRoutes_mk, TInfo.routes, List.nil_append]
           exact hr
   cases hx : (q.scheme.getD "" != "" && (alookup (q.scheme.getD "") s.map).isNone)
-  · simp only [hx, Bool.false_eq_true, if_false, routesOfList_append, List.mem_append, key]
-  · simp only [hx, if_true, routesOfList_append, routesOfList_singleton, Trace.routes_mk,
-      TInfo.routes, routesOfList_nil, List.append_nil, List.mem_append, key]
+  · simp only [hx, Bool.false_eq_true, if_false, rawRoutesOfList_append, List.mem_append, key]
+  · simp only [hx, if_true, rawRoutesOfList_append, rawRoutesOfList_singleton, Trace.rawRoutes_mk,
+      TInfo.routes, rawRoutesOfList_nil, List.append_nil, List.mem_append, key]
 
 def schemeLaws : MLaws (schemeOps I) :=
   outerLaws IL Scheme.keysOf (Scheme.matchReq I) (Scheme.trace I)
@@ -211,15 +211,15 @@ theorem method_singleAccept : SingleAccept Method.keysOf Method.accepts := by
 
 theorem method_mem_trace (s : LState I MKey) (L : List Route)
     (h : LRepr IL Method.keysOf s L) (hU : UIds L) (q : Req) (r : Route) :
-    r ∈ routesOfList (Method.trace I s q) ↔ r ∈ Method.matchReq I s q := by
+    r ∈ rawRoutesOfList (Method.trace I s q) ↔ r ∈ Method.matchReq I s q := by
   rw [(method_match_perm s h.nodup q).mem_iff, List.mem_append,
     ← mem_trace_buckets IL Method.keysOf Method.accepts s L h hU q r,
     ← mem_any_trace IL Method.keysOf s L h hU q r]
   unfold Method.trace
-  simp only [routesOfList_append, List.mem_append, mem_routesOfList_filterMap]
-  have hlast : ∀ b : Bool, r ∈ routesOfList
+  simp only [rawRoutesOfList_append, List.mem_append, mem_rawRoutesOfList_filterMap]
+  have hlast : ∀ b : Bool, r ∈ rawRoutesOfList
       (if b = true then [Trace.mk true false 0 (.other "method") []] else []) ↔ False := by
-    intro b; cases b <;> simp [routesOfList_singleton, Trace.routes_mk, TInfo.routes]
+    intro b; cases b <;> simp [rawRoutesOfList_singleton, Trace.rawRoutes_mk, TInfo.routes]
   rw [hlast]
   constructor
   · rintro (((hr | ⟨e, he, t, ht, hr⟩) | ⟨e, he, t, ht, hr⟩) | hf)
@@ -233,11 +233,11 @@ theorem method_mem_trace (s : LState I MKey) (L : List Route)
         cases hc : ms.contains q.methodStr
         · simp only [hc, Bool.not_false, if_true] at ht
           subst ht
-          simp only [Trace.routes_mk, TInfo.routes, List.nil_append] at hr
+          simp only [Trace.rawRoutes_mk, TInfo.routes, List.nil_append] at hr
           exact ⟨by simp only [Method.accepts, hc]; rfl, hr⟩
         · simp only [hc, Bool.not_true, Bool.false_eq_true, if_false] at ht
           subst ht
-          simp [Trace.routes_mk, TInfo.routes] at hr
+          simp [Trace.rawRoutes_mk, TInfo.routes] at hr
     · right
       refine ⟨e, he, ?_⟩
       cases hk : e.1 with
@@ -247,10 +247,10 @@ theorem method_mem_trace (s : LState I MKey) (L : List Route)
         cases hc : x == q.methodStr
         · simp only [hc, Bool.false_eq_true, if_false] at ht
           subst ht
-          simp [Trace.routes_mk, TInfo.routes] at hr
+          simp [Trace.rawRoutes_mk, TInfo.routes] at hr
         · simp only [hc, if_true] at ht
           subst ht
-          simp only [Trace.routes_mk, TInfo.routes, List.nil_append] at hr
+          simp only [Trace.rawRoutes_mk, TInfo.routes, List.nil_append] at hr
           exact ⟨by simp only [Method.accepts, hc], hr⟩
     · exact hf.elim
   · rintro (hr | ⟨e, he, ha, hr⟩)
@@ -261,12 +261,12 @@ theorem method_mem_trace (s : LState I MKey) (L : List Route)
         right
         simp only [Method.accepts, hk] at ha
         exact ⟨e, he, _, by simp only [hk]; rfl, by
-          simp only [ha, if_true, Trace.routes_mk, TInfo.routes, List.nil_append]; exact hr⟩
+          simp only [ha, if_true, Trace.rawRoutes_mk, TInfo.routes, List.nil_append]; exact hr⟩
       | exclude ms =>
         left; right
         simp only [Method.accepts, hk] at ha
         exact ⟨e, he, _, by simp only [hk]; rfl, by
-          simp only [ha, if_true, Trace.routes_mk, TInfo.routes, List.nil_append]; exact hr⟩
+          simp only [ha, if_true, Trace.rawRoutes_mk, TInfo.routes, List.nil_append]; exact hr⟩
 
 def methodLaws : MLaws (methodOps I) :=
   outerLaws IL Method.keysOf (Method.matchReq I) (Method.trace I)
@@ -283,77 +283,6 @@ def methodLaws : MLaws (methodOps I) :=
     (fun s L q r h hU => method_mem_trace IL s L h hU q r)
 
 /-! ## IpMatcher: the bucket union with the report-once guard -/
-
-theorem pushNew_nil (acc : List Route) : pushNew acc [] = acc := rfl
-
-theorem pushNew_cons (acc : List Route) (r : Route) (new : List Route) :
-    pushNew acc (r :: new) =
-      pushNew (if acc.any (fun x => x.id == r.id) then acc else acc ++ [r]) new := rfl
-
-theorem pushNew_mem (L : List Route) (hU : UIds L) (new : List Route) (x : Route) :
-    ∀ acc, (∀ y ∈ acc, y ∈ L) → (∀ y ∈ new, y ∈ L) →
-      (x ∈ pushNew acc new ↔ x ∈ acc ∨ x ∈ new) := by
-  induction new with
-  | nil => intro acc _ _; simp [pushNew_nil]
-  | cons r new ih =>
-    intro acc hacc hnew
-    rw [pushNew_cons]
-    have hr : r ∈ L := hnew r (List.mem_cons_self ..)
-    have hnew' : ∀ y ∈ new, y ∈ L := fun y hy => hnew y (List.mem_cons_of_mem _ hy)
-    by_cases hany : acc.any (fun y => y.id == r.id) = true
-    · simp only [hany, if_true]
-      rw [ih acc hacc hnew']
-      have hin : r ∈ acc := by
-        rw [List.any_eq_true] at hany
-        obtain ⟨y, hy, hid⟩ := hany
-        have : y = r := hU y (hacc y hy) r hr (by simpa using hid)
-        exact this ▸ hy
-      constructor
-      · rintro (h | h)
-        · exact Or.inl h
-        · exact Or.inr (List.mem_cons_of_mem _ h)
-      · rintro (h | h)
-        · exact Or.inl h
-        · rcases List.mem_cons.mp h with h | h
-          · exact Or.inl (h ▸ hin)
-          · exact Or.inr h
-    · simp only [hany, if_false, Bool.false_eq_true]
-      rw [ih (acc ++ [r]) (by
-        intro y hy
-        rcases List.mem_append.mp hy with hy | hy
-        · exact hacc y hy
-        · simp at hy; exact hy ▸ hr) hnew']
-      simp only [List.mem_append, List.mem_singleton, List.mem_cons, List.not_mem_nil, or_false]
-      constructor
-      · rintro ((h | h) | h)
-        · exact Or.inl h
-        · exact Or.inr (Or.inl h)
-        · exact Or.inr (Or.inr h)
-      · rintro (h | h | h)
-        · exact Or.inl (Or.inl h)
-        · exact Or.inl (Or.inr h)
-        · exact Or.inr h
-
-theorem pushNew_nodupIds (new : List Route) :
-    ∀ acc, (acc.map (·.id)).Nodup → ((pushNew acc new).map (·.id)).Nodup := by
-  induction new with
-  | nil => intro acc h; exact h
-  | cons r new ih =>
-    intro acc h
-    rw [pushNew_cons]
-    by_cases hany : acc.any (fun y => y.id == r.id) = true
-    · simp only [hany, if_true]; exact ih acc h
-    · simp only [hany, if_false, Bool.false_eq_true]
-      apply ih
-      rw [List.map_append, List.nodup_append]
-      refine ⟨h, by simp, ?_⟩
-      intro a ha b hb hab
-      simp only [List.map_cons, List.map_nil, List.mem_singleton] at hb
-      subst hab
-      apply hany
-      rw [List.any_eq_true]
-      obtain ⟨y, hy, hid⟩ := List.mem_map.mp ha
-      exact ⟨y, hy, by simp [hid, hb]⟩
 
 /-- the loop of `IpMatcher::match_request` over the buckets -/
 def Ip.loop (I : MOps) (a : Ip) (q : Req) (m : List (RouteIp × I.M)) (routes : List Route) : List Route :=
@@ -457,7 +386,7 @@ theorem ip_spec (s : LState I RouteIp) (L : List Route) (h : LRepr IL Ip.keysOf 
 
 theorem ip_mem_trace (s : LState I RouteIp) (L : List Route)
     (h : LRepr IL Ip.keysOf s L) (hU : UIds L) (q : Req) (r : Route) :
-    r ∈ routesOfList (Ip.trace I s q) ↔ r ∈ Ip.matchReq I s q := by
+    r ∈ rawRoutesOfList (Ip.trace I s q) ↔ r ∈ Ip.matchReq I s q := by
   rw [(ip_spec IL s L h hU q).2 r,
     ← mem_trace_buckets IL Ip.keysOf Ip.accepts s L h hU q r,
     ← mem_any_trace IL Ip.keysOf s L h hU q r]
@@ -465,19 +394,19 @@ theorem ip_mem_trace (s : LState I RouteIp) (L : List Route)
   cases hq : q.ip with
   | none => simp
   | some a =>
-    simp only [routesOfList_append, List.mem_append, mem_routesOfList_map]
+    simp only [rawRoutesOfList_append, List.mem_append, mem_rawRoutesOfList_map]
     constructor
     · rintro (hr | ⟨e, he, hr⟩)
       · exact Or.inl hr
       · right
         by_cases hc : e.1.matchIp a = true
-        · simp only [hc, if_true, Trace.routes_mk, TInfo.routes, List.nil_append] at hr
+        · simp only [hc, if_true, Trace.rawRoutes_mk, TInfo.routes, List.nil_append] at hr
           exact ⟨e, he, hc, hr⟩
-        · simp [hc, Trace.routes_mk, TInfo.routes] at hr
+        · simp [hc, Trace.rawRoutes_mk, TInfo.routes] at hr
     · rintro (hr | ⟨e, he, hc, hr⟩)
       · exact Or.inl hr
       · right
-        exact ⟨e, he, by simp only [hc, if_true, Trace.routes_mk, TInfo.routes, List.nil_append]; exact hr⟩
+        exact ⟨e, he, by simp only [hc, if_true, Trace.rawRoutes_mk, TInfo.routes, List.nil_append]; exact hr⟩
 
 def ipLaws : MLaws (ipOps I) :=
   outerLaws IL Ip.keysOf (Ip.matchReq I) (Ip.trace I)
@@ -637,10 +566,10 @@ theorem host_nodup_match (s : LState I HKey) (L : List Route) (h : LRepr IL Host
   · exact hB
 
 theorem host_staticNode_mem (s : LState I HKey) (q : Req) (r : Route) :
-    r ∈ routesOfList (s.map.filterMap (Host.staticNode I q)) ↔
+    r ∈ rawRoutesOfList (s.map.filterMap (Host.staticNode I q)) ↔
       ∃ e ∈ s.map, ∃ h', e.1 = HKey.static h' ∧ q.host = some h' ∧
-        r ∈ routesOfList (I.trace e.2 q) := by
-  rw [mem_routesOfList_filterMap]
+        r ∈ rawRoutesOfList (I.trace e.2 q) := by
+  rw [mem_rawRoutesOfList_filterMap]
   constructor
   · rintro ⟨e, he, t, ht, hr⟩
     unfold Host.staticNode at ht
@@ -650,21 +579,21 @@ theorem host_staticNode_mem (s : LState I HKey) (q : Req) (r : Route) :
       simp only [hk, Option.some.injEq] at ht
       by_cases hc : (q.host == some h') = true
       · simp only [hc, if_true] at ht; subst ht
-        simp only [Trace.routes_mk, TInfo.routes, List.nil_append] at hr
+        simp only [Trace.rawRoutes_mk, TInfo.routes, List.nil_append] at hr
         exact ⟨e, he, h', hk, by simpa using hc, hr⟩
       · simp only [hc, if_false, Bool.false_eq_true] at ht; subst ht
-        simp [Trace.routes_mk, TInfo.routes] at hr
+        simp [Trace.rawRoutes_mk, TInfo.routes] at hr
   · rintro ⟨e, he, h', hk, hq, hr⟩
     have hc : (q.host == some h') = true := by simp [hq]
     refine ⟨e, he, Trace.mk true true (I.len e.2) (.other "host_static") (I.trace e.2 q), ?_, ?_⟩
     · unfold Host.staticNode; simp [hk, hc]
-    · simp only [Trace.routes_mk, TInfo.routes, List.nil_append]; exact hr
+    · simp only [Trace.rawRoutes_mk, TInfo.routes, List.nil_append]; exact hr
 
 theorem host_dynNode_mem (s : LState I HKey) (q : Req) (hh : String) (r : Route) :
-    r ∈ routesOfList (s.map.filterMap (Host.dynNode E I hh q)) ↔
+    r ∈ rawRoutesOfList (s.map.filterMap (Host.dynNode E I hh q)) ↔
       ∃ e ∈ s.map, ∃ p, e.1 = HKey.dyn p ∧ E.hostFind p hh = true ∧
-        r ∈ routesOfList (I.trace e.2 q) := by
-  rw [mem_routesOfList_filterMap]
+        r ∈ rawRoutesOfList (I.trace e.2 q) := by
+  rw [mem_rawRoutesOfList_filterMap]
   constructor
   · rintro ⟨e, he, t, ht, hr⟩
     unfold Host.dynNode at ht
@@ -673,35 +602,35 @@ theorem host_dynNode_mem (s : LState I HKey) (q : Req) (hh : String) (r : Route)
     | dyn p =>
       simp only [hk, Option.some.injEq] at ht
       subst ht
-      simp only [Trace.routes_mk, TInfo.routes, List.nil_append] at hr
+      simp only [Trace.rawRoutes_mk, TInfo.routes, List.nil_append] at hr
       by_cases hc : E.hostFind p hh = true
       · simp only [hc, if_true] at hr; exact ⟨e, he, p, hk, hc, hr⟩
       · simp [hc] at hr
   · rintro ⟨e, he, p, hk, hc, hr⟩
     refine ⟨e, he, Trace.mk true true 1 (.other "regex") (I.trace e.2 q), ?_, ?_⟩
     · unfold Host.dynNode; simp [hk, hc]
-    · simp only [Trace.routes_mk, TInfo.routes, List.nil_append]; exact hr
+    · simp only [Trace.rawRoutes_mk, TInfo.routes, List.nil_append]; exact hr
 
 theorem host_traceFor_mem (s : LState I HKey) (q : Req) (hh : String) (r : Route) :
-    r ∈ routesOfList (Host.traceFor E I s q hh) ↔
-      r ∈ routesOfList (s.map.filterMap (Host.dynNode E I hh q)) := by
+    r ∈ rawRoutesOfList (Host.traceFor E I s q hh) ↔
+      r ∈ rawRoutesOfList (s.map.filterMap (Host.dynNode E I hh q)) := by
   unfold Host.traceFor
   cases hx : (alookup (HKey.static hh) s.map).isNone
-  · simp only [Bool.false_eq_true, if_false, routesOfList_append, routesOfList_singleton,
-      Trace.routes_mk, TInfo.routes, List.nil_append, List.append_nil, routesOfList_nil]
-  · simp only [if_true, routesOfList_append, routesOfList_singleton, Trace.routes_mk,
-      TInfo.routes, List.nil_append, List.append_nil, routesOfList_nil]
+  · simp only [Bool.false_eq_true, if_false, rawRoutesOfList_append, rawRoutesOfList_singleton,
+      Trace.rawRoutes_mk, TInfo.routes, List.nil_append, List.append_nil, rawRoutesOfList_nil]
+  · simp only [if_true, rawRoutesOfList_append, rawRoutesOfList_singleton, Trace.rawRoutes_mk,
+      TInfo.routes, List.nil_append, List.append_nil, rawRoutesOfList_nil]
 
 theorem host_traceBound_mem (s : LState I HKey) (L : List Route) (h : LRepr IL Host.keysOf s L)
     (hU : UIds L) (q : Req) (r : Route) :
-    r ∈ routesOfList (Host.traceBound E I s q) ↔ r ∈ Host.matchBound E I s q := by
+    r ∈ rawRoutesOfList (Host.traceBound E I s q) ↔ r ∈ Host.matchBound E I s q := by
   rw [(host_bound_perm E s h.nodup q).mem_iff,
     ← mem_trace_buckets IL Host.keysOf (Host.accepts E) s L h hU q r]
   unfold Host.traceBound
-  rw [routesOfList_append, List.mem_append, host_staticNode_mem]
+  rw [rawRoutesOfList_append, List.mem_append, host_staticNode_mem]
   cases hq : q.host with
   | none =>
-    simp only [routesOfList_nil, List.not_mem_nil, or_false]
+    simp only [rawRoutesOfList_nil, List.not_mem_nil, or_false]
     unfold Host.accepts
     simp [hq]
   | some hh =>
@@ -733,17 +662,22 @@ theorem host_trace_unfold (s : LState I HKey) (q : Req) :
 
 theorem host_mem_trace (s : LState I HKey) (L : List Route) (h : LRepr IL Host.keysOf s L)
     (hU : UIds L) (q : Req) (r : Route) :
-    r ∈ routesOfList (Host.trace E I s q) ↔ r ∈ Host.matchReq E I s q := by
+    r ∈ rawRoutesOfList (Host.trace E I s q) ↔ r ∈ Host.matchReq E I s q := by
   have hb := host_traceBound_mem IL E s L h hU q
+  have hraw : ∀ y ∈ rawRoutesOfList (Host.traceBound E I s q), y ∈ L := by
+    intro y hy
+    exact ((host_mem_bound IL E s L h hU q y).1 ((hb y).1 hy)).1
   have hempty : (routesOfList (Host.traceBound E I s q)).isEmpty = (Host.matchBound E I s q).isEmpty := by
     rw [Bool.eq_iff_iff, isEmpty_iff_forall, isEmpty_iff_forall]
     constructor
-    · intro hx x hx2; exact hx x ((hb x).2 hx2)
-    · intro hx x hx2; exact hx x ((hb x).1 hx2)
+    · intro hx x hx2
+      exact hx x ((mem_routesOfList_iff L hU _ hraw x).2 ((hb x).2 hx2))
+    · intro hx x hx2
+      exact hx x ((hb x).1 ((mem_routesOfList_iff L hU _ hraw x).1 hx2))
   rw [host_trace_unfold, host_match_unfold, hempty]
   cases hc : (E.alwaysAnyHost || (Host.matchBound E I s q).isEmpty)
   · simp only [Bool.false_eq_true, if_false, hb]
-  · simp only [if_true, routesOfList_append, List.mem_append, hb,
+  · simp only [if_true, rawRoutesOfList_append, List.mem_append, hb,
       mem_any_trace IL Host.keysOf s L h hU q r]
 
 theorem hostSat_congr (L L' : List Route) (r : Route) (q : Req) (h : ∀ x, x ∈ L ↔ x ∈ L') :
